@@ -1,19 +1,23 @@
 #!/bin/bash
-# Applies each behaviour-preserving refactoring under $1 (dirs with patch.diff) to /repo and runs
-# the quick checks given in $PROPS; every check must stay quiet (exit 0).
+# Applies each behaviour-preserving refactoring under /verif/selftest/benign (dirs with patch.diff) to a scratch
+# copy of /repo and runs the quick checks given in $PROPS (default: all 20); every check must stay quiet (exit 0).
+# usage: tools/run_benign.sh [id...]      (PAR=4 patches in parallel)
 cd /verif
-root=${1:-/tmp/seed2}
-export VERIF_OUT=/tmp/seedruns/out
-PROPS=${PROPS:-"C01 C08 C09 C10 C13 C17 C18 C06 C16 C20"}
-for d in $root/B*/_seed/*/ $root/B*-*/; do
-  id=$(echo $d | sed "s:.*/\(B[0-9]\)/_seed/\([0-9]*\)/:\1-\2:; s:.*/\(B[0-9]*-[0-9]*\)/$:\1:")
-  git -C /repo checkout -q -- . ; git -C /repo clean -fdq
-  if ! git -C /repo apply $d/patch.diff 2>/dev/null; then echo "$id APPLY-FAIL"; continue; fi
+export GOFLAGS=-mod=mod GOPROXY=off
+PROPS=${PROPS:-"C01 C02 C03 C04 C05 C06 C07 C08 C09 C10 C11 C12 C13 C14 C15 C16 C17 C18 C19 C20"}
+ids="$@"; [ -z "$ids" ] && ids=$(ls selftest/benign)
+one() {
+  id=$1; d=/verif/selftest/benign/$id
+  S=$(mktemp -d /tmp/verif-benign.XXXXXX)
+  cp -a /repo/. "$S"/
+  if ! (cd "$S" && git apply $d/patch.diff 2>/dev/null); then echo "$id APPLY-FAIL"; find "${S:?}" -mindepth 1 -delete; rmdir "$S"; return; fi
   res=""
   for p in $PROPS; do
-    ./check $p quick > /tmp/seedruns/benign.$id.$p.out 2>&1; rc=$?
-    [ $rc -ne 0 ] && res="$res $p:rc=$rc[$(grep -m1 -E '^VIOLATION|MACHINERY' /tmp/seedruns/benign.$id.$p.out | sed 's/.*obligation=//' | cut -c1-100)]"
+    VERIF_REPO="$S" VERIF_OUT="$S/.verif-out" timeout 900 ./bin/gocv check $p quick > "$S/.out" 2>&1; rc=$?
+    [ $rc -ne 0 ] && res="$res $p:rc=$rc[$(grep -m1 -E '^VIOLATION|MACHINERY' "$S/.out" | sed 's/.*obligation=//' | cut -c1-110)]"
   done
   echo "$id ${res:-quiet}"
-  git -C /repo checkout -q -- . ; git -C /repo clean -fdq
-done
+  find "${S:?}" -mindepth 1 -delete; rmdir "$S"
+}
+export -f one; export PROPS
+echo $ids | tr ' ' '\n' | xargs -P ${PAR:-4} -I{} bash -c 'one {}'
